@@ -1,7 +1,7 @@
 """C03 -- timing simulation settles to the Boolean function for any delays / capacity."""
 from harness import wavecheck as wk, waveoracle as wo
 
-THEOREMS = ['C03_total', 'C03_final', 'C03_init', 'C03_wf']
+THEOREMS = ['C03_total', 'C03_final', 'C03_init', 'C03_wf', 'C03_circuit_settles']
 
 
 def oracle(k, w):
